@@ -480,6 +480,34 @@ pub fn run_cases<C: serde::Serialize + Sync>(ctx: &Arc<Ctx>, cases: &[C], chunk:
     });
 }
 
+/// all orderings of the given items (used to build call sequences over related inputs)
+pub fn permutations<T: Clone>(items: &[T]) -> Vec<Vec<T>> {
+    if items.len() <= 1 {
+        return vec![items.to_vec()];
+    }
+    let mut out = Vec::new();
+    for i in 0..items.len() {
+        let mut rest = items.to_vec();
+        let x = rest.remove(i);
+        for mut p in permutations(&rest) {
+            p.insert(0, x.clone());
+            out.push(p);
+        }
+    }
+    out
+}
+
+/// Sequences of equal length: each sequence is executed in order on its own fresh thread
+pub fn run_sequences<C: serde::Serialize + Sync + Clone>(ctx: &Arc<Ctx>, seqs: &[Vec<C>], eval: impl Fn(&Ctx, &C) + Sync) {
+    if seqs.is_empty() {
+        return;
+    }
+    let l = seqs[0].len();
+    assert!(seqs.iter().all(|s| s.len() == l));
+    let flat: Vec<C> = seqs.iter().flat_map(|s| s.iter().cloned()).collect();
+    run_cases(ctx, &flat, l, eval);
+}
+
 pub fn truncate(s: &str, n: usize) -> String {
     if s.len() <= n {
         s.to_string()
